@@ -18,12 +18,17 @@ pub struct Case {
   pub announce: bool,
   /// other tracker-related options that are *not* `--announce`: tiers, DHT nodes (they must not lift private-trackerless)
   pub tier: bool,
+  /// 0 = a single file, 1 = a directory, 2 = standard input (`--input -` with `--name`)
+  pub input: u8,
+  /// piece length spelled with a unit (`16KiB`) instead of plain bytes
+  pub unit: bool,
 }
 
 impl Case {
   fn to_json(&self) -> Value {
     json!({"allow_mask": self.mask, "allow": LINTS.iter().enumerate().filter(|(i,_)| self.mask >> i & 1 == 1).map(|(_,l)| *l).collect::<Vec<_>>(),
-           "piece_length": self.p.to_string(), "private": self.private, "announce": self.announce, "announce_tier_and_node": self.tier})
+           "piece_length": self.p.to_string(), "private": self.private, "announce": self.announce, "announce_tier_and_node": self.tier,
+           "input": (["file", "directory", "stdin"][self.input as usize % 3]), "piece_length_spelling": self.spelling()})
   }
   fn from_json(v: &Value) -> Option<Case> {
     Some(Case {
@@ -32,7 +37,16 @@ impl Case {
       private: v.get("private")?.as_bool()?,
       announce: v.get("announce")?.as_bool()?,
       tier: v.get("announce_tier_and_node").and_then(|b| b.as_bool()).unwrap_or(false),
+      input: match v.get("input").and_then(|s| s.as_str()) { Some("directory") => 1, Some("stdin") => 2, _ => 0 },
+      unit: v.get("piece_length_spelling").and_then(|s| s.as_str()).map(|s| s.ends_with('B')).unwrap_or(false),
     })
+  }
+  fn spelling(&self) -> String {
+    if self.unit && self.p != 0 && self.p % 1024 == 0 {
+      if self.p % (1 << 20) == 0 { format!("{}MiB", self.p >> 20) } else { format!("{}KiB", self.p >> 10) }
+    } else {
+      self.p.to_string()
+    }
   }
 }
 
@@ -63,12 +77,21 @@ struct Obs {
 
 fn observe(ctx: &Ctx, c: &Case) -> Obs {
   let sb = Sandbox::new(&ctx.work, "c14");
-  sb.write("content", b"0123456789abcdefghij");
-  let mut args: Vec<String> = ["torrent", "create", "--input", "content", "--output", "out.torrent", "--piece-length"]
-    .iter()
-    .map(|s| s.to_string())
-    .collect();
-  args.push(c.p.to_string());
+  let mut args: Vec<String> = ["torrent", "create", "--output", "out.torrent", "--input"].iter().map(|s| s.to_string()).collect();
+  match c.input {
+    1 => {
+      sb.write("content/a", b"0123456789abcdefghij");
+      sb.write("content/sub/b", b"klmnopqrst");
+      args.push("content".into());
+    }
+    2 => args.extend(["-".to_string(), "--name".into(), "content".into()]),
+    _ => {
+      sb.write("content", b"0123456789abcdefghij");
+      args.push("content".into());
+    }
+  }
+  args.push("--piece-length".into());
+  args.push(c.spelling());
   for (i, l) in LINTS.iter().enumerate() {
     if c.mask >> i & 1 == 1 {
       args.push("--allow".into());
@@ -85,7 +108,11 @@ fn observe(ctx: &Ctx, c: &Case) -> Obs {
   if c.tier {
     args.extend(["--announce-tier".to_string(), "http://a.example/announce,udp://b.example:6969".into(), "--node".into(), "router.example.com:6881".into()]);
   }
-  let out = Cmd::args_owned(&ctx.imdl, args).cwd(&sb.root).run();
+  let mut cmd = Cmd::args_owned(&ctx.imdl, args).cwd(&sb.root);
+  if c.input == 2 {
+    cmd = cmd.stdin(b"0123456789abcdefghij");
+  }
+  let out = cmd.run();
   let torrent = std::fs::read(sb.path("out.torrent")).ok();
   let piece_length = torrent
     .as_ref()
@@ -155,8 +182,8 @@ fn judge(c: &Case, o: &Obs, model_ans: &str) -> (Option<String>, Option<String>)
 
 pub fn run(ctx: &Ctx) -> Report {
   let mut report = Report::new(
-    "complete enumeration: 8 allow subsets x piece lengths on both sides of every threshold x 4 private/announce combinations (and, for three piece lengths, the same with --announce-tier and --node given), on the real binary; \
-     non-trivial = at least one rule violated or a lint allowed; distinct by (mask,p,private,announce,tier)",
+    "complete enumeration: 8 allow subsets x piece lengths on both sides of every threshold x 4 private/announce combinations (and, for three piece lengths, the same with --announce-tier and --node given; for eight piece lengths also with a directory and with standard input as content; for six with the length spelled with a unit), on the real binary; \
+     non-trivial = at least one rule violated or a lint allowed; distinct by (mask,p,private,announce,tier,input,spelling)",
   );
   report.correspondences.push("C14.cli: `imdl torrent create` accept/reject, recorded piece length, named lint = Imdlv.Lints.createDecision".into());
   let mut cases = Vec::new();
@@ -173,9 +200,18 @@ pub fn run(ctx: &Ctx) -> Report {
     for mask in 0..8 {
       for &p in &ps {
         for pa in 0..4 {
-          cases.push(Case { mask, p, private: pa & 1 == 1, announce: pa & 2 == 2, tier: false });
+          cases.push(Case { mask, p, private: pa & 1 == 1, announce: pa & 2 == 2, tier: false, input: 0, unit: false });
           if [16384u64, 1000, 16385].contains(&p) {
-            cases.push(Case { mask, p, private: pa & 1 == 1, announce: pa & 2 == 2, tier: true });
+            cases.push(Case { mask, p, private: pa & 1 == 1, announce: pa & 2 == 2, tier: true, input: 0, unit: false });
+          }
+          // the rules do not depend on where the content comes from or on how the length is spelled
+          if [0u64, 1000, 8192, 16383, 16384, 16385, 65537, 1 << 32].contains(&p) {
+            for input in 1..3 {
+              cases.push(Case { mask, p, private: pa & 1 == 1, announce: pa & 2 == 2, tier: false, input, unit: false });
+            }
+          }
+          if [8192u64, 16384, 24576, 1 << 20, 1 << 32, 1 << 33].contains(&p) {
+            cases.push(Case { mask, p, private: pa & 1 == 1, announce: pa & 2 == 2, tier: false, input: (mask % 3) as u8, unit: true });
           }
         }
       }
@@ -190,6 +226,10 @@ pub fn run(ctx: &Ctx) -> Report {
     let key = fnv_str(&c.to_json().to_string());
     report.case(if !accept || c.mask != 0 { Some(key) } else { None });
     report.hit(if accept { "outcome:accept" } else { "outcome:reject" });
+    report.hit(["input:file", "input:directory", "input:stdin"][c.input as usize % 3]);
+    if c.unit {
+      report.hit("length-with-unit");
+    }
     if !accept {
       report.hit(&format!("denied-mask:{denied}"));
       if let Some(l) = named_lint(&o.stderr) {
